@@ -34,4 +34,21 @@ WellFormedCase == Picked =>
                   /\ \A i \in DOMAIN M : WellSorted(M[i].k) /\ WellSorted(M[i].v) /\ NF(M[i].k) /\ NF(M[i].v)
                                          /\ ~ZeroDen(M[i].k) /\ ~ZeroDen(M[i].v)
                   /\ \A i \in DOMAIN M : \A j \in DOMAIN M : i # j => M[i].k # M[j].k
+
+\* ---- the reference on the examples of the Substituter.substitute docstring, and the teeth of the
+\* ---- operators the judge relies on (a false ASSUME stops the run: machinery failure)
+AB == Bin("and", A, B)
+ASSUME Subst(AB, <<Pair(A, C), Pair(Bin("and", C, B), Not(C)), Pair(AB, C)>>) = C   \* docstring example 1
+ASSUME Subst(A, <<Pair(A, C), Pair(C, B)>>) = C                                      \* docstring example 2
+ASSUME MapVerdict(<<Pair(A, One), Pair(B, C)>>) = "reject"                           \* docstring example 3
+ASSUME Subst(AB, <<Pair(A, B), Pair(Bin("and", B, B), C)>>) = Bin("and", B, B)       \* top-down, not bottom-up
+ASSUME Subst(Qu("exists", "v", P(V)), <<Pair(P(V), A), Pair(V, LOC)>>) = Qu("exists", "v", P(V))
+ASSUME Subst(Bin("and", P(V), Qu("exists", "v", P(V))), <<Pair(V, LOC)>>) = Bin("and", P(LOC), Qu("exists", "v", P(V)))
+ASSUME Subst(Not(A), <<Pair(A, Not(B))>>) = B                                        \* Not(Not x) = x
+ASSUME SemOK(A, <<Pair(A, B)>>, B) /\ ~SemOK(A, <<Pair(A, B)>>, A)
+ASSUME SemOK(Bin("le", X, One), <<Pair(X, Bin("plus", X, One))>>, Bin("le", Bin("plus", X, One), One))
+       /\ ~SemOK(Bin("le", X, One), <<Pair(X, Bin("plus", X, One))>>, Bin("le", X, One))
+ASSUME ~SemApplicable(Qu("exists", "v", AB), <<Pair(A, P(V))>>)                      \* capture is outside the corollary
+ASSUME ~WellSorted(Bin("and", A, One)) /\ ~NF(Not(Not(A))) /\ ZeroDen(Bin("div", X, Bin("minus", One, One)))
+ASSUME MaxOcc(AB, <<Pair(A, B), Pair(AB, C)>>) = {<<>>} /\ MaxOcc(AB, <<Pair(A, B), Pair(B, A)>>) = {<<1>>, <<2>>}
 =============================================================================
